@@ -119,8 +119,12 @@ func genTxSpecs(r *run.Rng, n int) []TxSpec {
 }
 
 // genPMCase builds history number idx of a seed.
-func genPMCase(seed uint64, idx int, scratch string) (*PMCase, error) {
-	r := run.NewRng(seed, 20, uint64(idx))
+// try > 0 draws another case for the same index (see spawnPM: the race build's checkptr aborts in sha3).
+func genPMCase(seed uint64, idx, try int, scratch string) (*PMCase, error) {
+	r := run.NewRng(seed, 20, uint64(idx), uint64(try))
+	if try == 0 {
+		r = run.NewRng(seed, 20, uint64(idx))
+	}
 	nDep := []int{1, 2, 3, 3, 4, 5, 5}[r.Intn(7)]
 	n := r.Range(6, 12)
 	wcfg := fx.WorldCfg{Deputies: nDep, Users: 6, SlotMs: 10000}
@@ -333,6 +337,33 @@ func genPMCase(seed uint64, idx int, scratch string) (*PMCase, error) {
 			oi++
 		}
 	}
+	// a remote that joins late, takes over some deliveries and goes away again
+	if r.Chance(1, 3) && len(cs.Steps) >= 6 {
+		late := len(cs.Peers)
+		cs.Peers = append(cs.Peers, PeerSpec{Deputy: -1, Late: true, Announce: r.Chance(1, 4)})
+		a := r.Intn(len(cs.Steps) * 2 / 3)
+		b := a + 2 + r.Intn(len(cs.Steps)-a-1)
+		if b > len(cs.Steps) {
+			b = len(cs.Steps)
+		}
+		var out []Step
+		for i, st := range cs.Steps {
+			if i == a {
+				out = append(out, Step{Kind: "join", Peer: late})
+			}
+			if i == b {
+				out = append(out, Step{Kind: "leave", Peer: late})
+			}
+			if i >= a && i < b && st.Kind != "tick" && st.Kind != "pause" && r.Chance(1, 3) {
+				st.Peer = late
+			}
+			out = append(out, st)
+		}
+		if b >= len(cs.Steps) {
+			out = append(out, Step{Kind: "leave", Peer: late})
+		}
+		cs.Steps = out
+	}
 	return cs, nil
 }
 
@@ -362,13 +393,16 @@ func pmFingerprint(cs *PMCase) (string, bool) {
 		}
 		return "11+"
 	}
-	ann := 0
+	ann, late := 0, 0
 	for _, p := range cs.Peers {
 		if p.Announce {
 			ann++
 		}
+		if p.Late {
+			late++
+		}
 	}
-	fp := fmt.Sprintf("pm/%s/dep%d/n%d/peers%d/ann%d/defer%v/dups%s/conf%s/txb%s/ticks%d", cs.Mode, cs.World.Deputies, len(cs.Blocks), len(cs.Peers), ann, cs.DeferServe,
+	fp := fmt.Sprintf("pm/%s/dep%d/n%d/peers%d/late%d/ann%d/defer%v/dups%s/conf%s/txb%s/ticks%d", cs.Mode, cs.World.Deputies, len(cs.Blocks), len(cs.Peers), late, ann, cs.DeferServe,
 		bucket(nb-len(cs.Blocks)), bucket(nc), bucket(nt), ticks)
 	return fp, len(cs.Blocks) >= 2 && (nb > 0 || nt > 0)
 }
